@@ -170,8 +170,8 @@ None == "none"      \* no OS recorded (nil field / no context value)
 \* nothing of that first run may stick to the VM; "withoswarm": the WithOS option after the VM ran under ANOTHER
 \* host OS with the same parent context; "withosvm": the top-level API risor.Eval with the options WithOS and WithVM
 \* (a VM the host made with vm.NewEmpty)
-Sources == {"withos", "ctx", "ctxwarm", "withoswarm", "withosvm"}
-CtxSources == {"ctx", "ctxwarm"}
+Sources == {"withos", "ctx", "ctxwarm", "withoswarm", "withosvm", "ctxover"}
+CtxSources == {"ctx", "ctxwarm", "ctxover"}   \* ctxover: os.WithOS on a context that already carries another OS
 SpawnKinds  == {"go", "spawn"}                    \* vm.cloneCallAsync
 HClonekinds == {"clone", "cclone"}                \* host: vm.Clone() + Call(hostCtx, ..) after Run / from a host callback
 ImportKinds == {"import_body", "import_fn"}       \* module body at import time / function of an imported module
